@@ -11,6 +11,8 @@ mod exec;
 mod pure;
 #[cfg(feature = "std")]
 mod pure2;
+#[cfg(feature = "with_serde")]
+mod serde_probe;
 #[cfg(feature = "std")]
 mod sut;
 
@@ -31,6 +33,8 @@ fn main() {
         #[cfg(feature = "std")]
         "table" => pure::run(&args[2..]),
         "ints" => ints::run(&args[2..]),
+        #[cfg(feature = "with_serde")]
+        "serde" => serde_probe::run(&args[2..]),
         m => {
             eprintln!("unknown mode {m}");
             std::process::exit(2);
